@@ -115,7 +115,7 @@ def msan_stage(chk, rng, n_hist, n_num):
 
     for k in range(n_hist):
         vd_lines, _ = c15.gen_history(rng, rng.randint(20, 60))
-        pt_lines = [l for l in c13.gen_history(rng, rng.randint(20, 50)) if not l.endswith(' live')]
+        pt_lines = [l for l in (c13.gen_history(rng, rng.randint(20, 50)) if rng.random() < 0.6 else c13.gen_lists(rng, rng.randint(30, 70))) if not l.endswith(' live')]
         threads = [vd_lines, pt_lines, cal_thread(rng, 0, 0), cal_thread(rng, 1, 2), file_thread(rng, 5)]
         lines = [l for l in interleave(rng, threads) if not YAML_LINE.match(l)] + ['cal live']
         if not one(lines, 'interleaved history'):
@@ -167,7 +167,7 @@ def run(chk):
     lines_last = []
     for k in range(N):
         vd_lines, _ = c15.gen_history(rng, rng.randint(20, 60))                      # slots 0, 1 (allocs and frees included)
-        pt_lines = [l for l in c13.gen_history(rng, rng.randint(20, 50)) if not l.endswith(' live')]
+        pt_lines = [l for l in (c13.gen_history(rng, rng.randint(20, 50)) if rng.random() < 0.6 else c13.gen_lists(rng, rng.randint(30, 70))) if not l.endswith(' live')]
         threads = [vd_lines, pt_lines, cal_thread(rng, 0, 0), cal_thread(rng, 1, 2), file_thread(rng, 5)]
         lines = interleave(rng, threads) + ['cal live']
         lines_last = lines
